@@ -22,7 +22,7 @@ REPO = os.environ.get("VERIF_REPO", "/repo")
 TLA = os.path.join(VERIF, "tla")
 HARNESS = os.path.join(VERIF, "harness")
 CACHE = os.path.join(VERIF, ".cache")
-OUT = os.path.join(VERIF, "out")
+OUT = os.environ.get("VERIF_OUT") or os.path.join(VERIF, "out")   # (scratch output of regression runs elsewhere)
 JAR = "/opt/veriftools/tla/tla2tools.jar:/opt/veriftools/tla/CommunityModules-deps.jar"
 GUARD = "FASTSCAPELIB_VERIF_HOOKS"
 NCPU = min(16, os.cpu_count() or 4)
@@ -105,7 +105,7 @@ def build_harness(flavor="plain", sources=None, name="fsl_harness"):
     return exe
 
 
-def _prune_cache(keep=4):
+def _prune_cache(keep=40):
     try:
         ds = [os.path.join(CACHE, x) for x in os.listdir(CACHE) if x.startswith("h-") and ".tmp" not in x]
         ds.sort(key=os.path.getmtime, reverse=True)
@@ -491,8 +491,9 @@ class Evidence:
         self.cov["distinct_nontrivial"] = len(self._distinct)
         ev = dict(property_id=self.prop, tier=self.tier, seed=self.seed, level=self.level, coverage=self.cov,
                   assumptions=self.assumptions, wall_s=round(time.time() - self.t0, 2), violations=self.violations)
-        os.makedirs(os.path.join(VERIF, "evidence"), exist_ok=True)
-        p = os.path.join(VERIF, "evidence", self.prop + ".json")
+        evdir = os.environ.get("VERIF_EVIDENCE") or os.path.join(VERIF, "evidence")
+        os.makedirs(evdir, exist_ok=True)
+        p = os.path.join(evdir, self.prop + ".json")
         with open(p + ".tmp", "w") as f:
             json.dump(ev, f, indent=1)
         os.replace(p + ".tmp", p)
